@@ -202,17 +202,21 @@ def check_coarse_asset(case):
 def check_split(case):
     eao = eao_mod()
     out = []
-    start = pd.Timestamp('2021-01-01')
+    start = pd.Timestamp(case.get('start', '2021-01-01'))
     end = start + pd.Timedelta(case['hours'], 'h')
-    tg = eao.assets.Timegrid(start, end, freq=case['freq'])
+    # main time unit of the grid (C12): rates are given per unit (k = hours per unit), discounting with the assets' wacc
+    unit = case.get('unit', 'h')
+    k = {'h': 1., 'd': 24.}[unit]
+    w = case.get('wacc', 0.)
+    tg = eao.assets.Timegrid(start, end, freq=case['freq'], main_time_unit=unit)
     rng = np.random.RandomState(case['pseed'])
     price = rng.uniform(1, 20, tg.T).round(2)
     n1, n2 = eao.assets.Node('a'), eao.assets.Node('b')
-    assets = [eao.assets.SimpleContract(name='buy', nodes=n1, price='p', min_cap=-3., max_cap=3.),
-              eao.assets.SimpleContract(name='load', nodes=n2, min_cap=-1., max_cap=-1.),
-              eao.assets.Transport(name='t', nodes=[n1, n2], min_cap=0., max_cap=2., efficiency=0.9)]
+    assets = [eao.assets.SimpleContract(name='buy', nodes=n1, price='p', min_cap=-3. * k, max_cap=3. * k, wacc=w),
+              eao.assets.SimpleContract(name='load', nodes=n2, min_cap=-1. * k, max_cap=-1. * k, wacc=w),
+              eao.assets.Transport(name='t', nodes=[n1, n2], min_cap=0., max_cap=2. * k, efficiency=0.9, wacc=w)]
     if case['storage']:
-        assets.append(eao.assets.Storage(name='s', nodes=n1, size=3., cap_in=1., cap_out=1., start_level=1., end_level=1.))
+        assets.append(eao.assets.Storage(name='s', nodes=n1, size=3., cap_in=1. * k, cap_out=1. * k, start_level=1., end_level=1., wacc=w))
     if case.get('orderbook'):
         # one order per day (so every interval leaves some orders without any step: variables without mapping row), placed last / first
         pts_ = list(tg.timepoints) + [tg.end]
@@ -408,6 +412,80 @@ def check_fix_window_split(case):
     return out
 
 
+def check_fix_window_plant(case):
+    """C15 with an asset that has non-dispatch variables (on / start binaries) and its own window: a plant (capacity band when on, start
+    costs, active from step s0) sells into a market without limits.  The first W+1 steps are fixed to the solution under the old prices;
+    under new prices the optimum must be: cash flow of the fixed part at the new prices (previous outputs and starts) + the best on/off
+    plan of the remaining steps, computed in closed form (per step the better end of the capacity band, start costs by dynamic programming
+    from the state at the end of the window).  "All other variables remain free" fails if the plant cannot switch after the window."""
+    eao = eao_mod()
+    out = []
+    rng = random.Random(case['seed'])
+    T, s0, W = case['T'], case['s0'], case['W']
+    start = pd.Timestamp('2021-01-01')
+    tg = eao.assets.Timegrid(start, start + pd.Timedelta(T, 'h'), freq='h')
+    pts = list(tg.timepoints) + [tg.end]
+    node = eao.assets.Node('P')
+    mn, mx, e, cs = 2., 10., 1., case.get('start_costs', 3.)
+
+    def mkpf():
+        pl = eao.assets.Plant(name='pl', nodes=node, min_cap=mn, max_cap=mx, extra_costs=e, start_costs=cs, start=pts[s0] if s0 else None, time_already_off=1)
+        mk = eao.assets.SimpleContract(name='m', nodes=node, price='p', min_cap=-100., max_cap=100.)
+        return eao.portfolio.Portfolio([pl, mk] if not case.get('order') else [mk, pl])
+    lv = [-4., 0., 3., 6., 9.]
+    p1 = np.asarray([rng.choice(lv) for _ in range(T)])
+    p2 = np.asarray([rng.choice(lv) for _ in range(T)])
+    pf = mkpf()
+    op = pf.setup_optim_problem({'p': p1}, tg)
+    res = op.optimize()
+    if isinstance(res, str):
+        return out
+    m = op.mapping
+    d = m[(m['asset'] == 'pl') & (m['type'] == 'd')]
+    x_prev = np.zeros(T)
+    for i, r in d.iterrows():
+        x_prev[int(r['time_step'])] += res.x[i] * (r['disp_factor'] if 'disp_factor' in r and not pd.isnull(r['disp_factor']) else 1.)
+    on_prev = (np.abs(x_prev) > 1e-6).astype(int)
+    mask = np.zeros(T, bool)
+    mask[:W + 1] = True
+    if case.get('date'):
+        I = pts[W].to_pydatetime()
+    else:
+        I = mask.copy()
+    params = dict(case)
+    try:
+        op2 = mkpf().setup_optim_problem({'p': p2}, tg, fix_time_window={'I': I, 'x': np.asarray(res.x).copy()})
+        res2 = op2.optimize()
+    except Exception as ex:
+        out.append(fail('C15.plant.no_raise', 'portfolio:Portfolio.setup_optim_problem', case, params, f'{type(ex).__name__}: {str(ex)[:150]}'))
+        return out
+    if isinstance(res2, str):
+        out.append(fail('C15.plant.fixed_problem_is_solvable', 'portfolio:Portfolio.setup_optim_problem', case, params, f'{res2} (the previous solution is feasible for it)'))
+        return out
+    # closed form
+    val = 0.
+    prev_on = 0
+    for t in range(W + 1):
+        val += (p2[t] - e) * x_prev[t]
+        if on_prev[t] and not prev_on:
+            val -= cs
+        prev_on = on_prev[t]
+    best = {prev_on: 0.}
+    for t in range(W + 1, T):
+        gain = max((p2[t] - e) * mn, (p2[t] - e) * mx) if t >= s0 else None
+        nxt = {}
+        for st_, v in best.items():
+            nxt[0] = max(nxt.get(0, -1e18), v)
+            if gain is not None:
+                nxt[1] = max(nxt.get(1, -1e18), v + gain - (0. if st_ == 1 else cs))
+        best = nxt
+    want = val + max(best.values())
+    if abs(res2.value - want) > 1e-4 * max(1., abs(want)):
+        out.append(fail('C15.plant.steps_after_the_window_remain_free', 'portfolio:Portfolio.setup_optim_problem', case, params,
+                        f'value with the first {W + 1} steps fixed: {res2.value}; fixed part at the new prices + best plan of the remaining steps: {want} (old prices {p1.tolist()}, new prices {p2.tolist()}, previous output {x_prev.round(4).tolist()})'))
+    return out
+
+
 # ------------------------------------------------------------------------------------------------ C18 nodal prices
 def check_nodal_price(case):
     eao = eao_mod()
@@ -575,11 +653,22 @@ def check_scaled(case):
             return eao.assets.SimpleContract(name='bat', nodes=node, price='fix', min_cap=1.5 * f, max_cap=2. * f, start=pts[a], end=pts[b])
         if case.get('base') == 'load':
             return eao.assets.SimpleContract(name='bat', nodes=node, min_cap=-2. * f, max_cap=-1. * f, extra_costs=.5, start=pts[a], end=pts[b])
+        if case.get('base') == 'structured':
+            # a sub-portfolio with an internal node: cheap source behind a lossy pipe of limited capacity (internal variables, all continuous)
+            inner_node = eao.assets.Node('inner')
+            inner = eao.portfolio.Portfolio([eao.assets.SimpleContract(name='src', nodes=inner_node, price='fix', min_cap=0., max_cap=3. * f),
+                                             eao.assets.Transport(name='pipe', nodes=[inner_node, node], min_cap=0., max_cap=1.5 * f, efficiency=.9)])
+            return eao.portfolio.StructuredAsset(name='bat', nodes=node, portfolio=inner, start=pts[a], end=pts[b])
         return eao.assets.Storage(name='bat', nodes=node, size=4. * f, cap_in=1. * f, cap_out=1. * f, start=pts[a], end=pts[b])
     sc = eao.assets.ScaledAsset(name='sc', base_asset=base(1.), start=pts[a], end=pts[b], min_scale=s, max_scale=s, norm_scale=S, fix_costs=case['rate'])
     mk = eao.assets.SimpleContract(name='m', nodes=node, price='p', min_cap=-10., max_cap=10.)
     prices_ = {'p': price, 'fix': np.full(T, 17.)}
-    op, res = optimize(eao.portfolio.Portfolio([sc, mk]), prices_, tg)
+    try:
+        op, res = optimize(eao.portfolio.Portfolio([sc, mk]), prices_, tg)
+    except Exception as e:
+        out.append(fail('C16.scaled.fixed_scale_equals_scaled_base_less_fix_costs', 'assets:ScaledAsset.setup_optim_problem', case, dict(case),
+                        f'setting up the scaled asset raises {type(e).__name__}: {str(e)[:140]}'))
+        return out
     op2, res2 = optimize(eao.portfolio.Portfolio([base(s / S), mk]), prices_, tg)
     if isinstance(res, str) or isinstance(res2, str):
         return out
@@ -1381,6 +1470,88 @@ def check_chp_physics(case):
     return out
 
 
+def check_chp_ramp_profiles(case):
+    """C06, clause "it changes by at most the ramp between consecutive steps including the first step relative to the last dispatch (start /
+    shutdown ramp profiles taking precedence where given)": a Plant with a start ramp profile (and optionally a shutdown profile), an ordinary
+    ramp, a declared initial state (off / inside the start profile / profile just completed / running longer) on optimised solutions:
+    within the first len(profile) steps after a start the output follows the profile bounds; afterwards it lies in the capacity band and changes
+    by at most the ramp -- also at step 0 relative to the last dispatch when the profile is already completed; off => no output."""
+    eao = eao_mod()
+    out = []
+    rng = random.Random(case['seed'])
+    T = case['T']
+    start = pd.Timestamp('2021-01-01')
+    tg = eao.assets.Timegrid(start, start + pd.Timedelta(T, 'h'), freq='h')
+    node = eao.assets.Node('P')
+    prof_lo = list(case['profile'])
+    prof_up = [v + case.get('slack', 0.) for v in prof_lo]
+    L = len(prof_lo)
+    mn, mx, ramp = case['min_cap'], case['max_cap'], case['ramp']
+    tar = case['tar']
+    last = case['last']
+    kw = dict(start_ramp_lower_bounds=prof_lo, start_ramp_upper_bounds=prof_up, time_already_running=tar, time_already_off=0 if tar else 1, last_dispatch=last if tar else 0.)
+    sd = case.get('shutdown')
+    if sd:
+        kw.update(shutdown_ramp_lower_bounds=list(sd), shutdown_ramp_upper_bounds=list(sd))
+    pl = eao.assets.Plant(name='pl', nodes=node, min_cap=mn, max_cap=mx, extra_costs=.1, ramp=ramp, start_costs=case.get('start_costs', .5), **kw)
+    mk = eao.assets.SimpleContract(name='m', nodes=node, price='p', min_cap=-50., max_cap=50.)
+    price = np.asarray([float(rng.choice(case.get('levels', [-3, 2, 8, 12]))) for _ in range(T)])
+    assets = [pl, mk] if not case.get('order') else [mk, pl]
+    pf = eao.portfolio.Portfolio(assets)
+    F = lambda name, detail: out.append(fail(name, 'assets:CHPAsset._add_constraints_for_ramp', case, dict(case), f'{detail} | prices {price.tolist()}'))
+    try:
+        op = pf.setup_optim_problem({'p': price}, tg)
+        res = op.optimize()
+    except Exception as e:
+        F('C06.rampprofile.no_raise', f'{type(e).__name__}: {str(e)[:160]}')
+        return out
+    if isinstance(res, str):
+        return out
+    m = op.mapping
+    mine = m[m['asset'] == 'pl']
+    first = mine[~mine.index.duplicated(keep='first')]
+
+    def series(var):
+        v = np.zeros(T)
+        for i, rr in first[first['var_name'] == var].iterrows():
+            v[int(rr['time_step'])] = res.x[i]
+        return v
+    x, on = series('disp'), np.round(series('bool_on'))
+    tol = 1e-5
+    # running time at the start of step t (steps since the last start, counting the steps before the horizon)
+    run = tar
+    prev = last if tar else 0.
+    Ls = len(sd) if sd else 0
+    for t in range(T):
+        if on[t] < .5:
+            if abs(x[t]) > tol:
+                F('C06.off.no_output', f'step {t}: output {x[t]} while off (on {on.tolist()})')
+                break
+            run, prev = 0, 0.
+            continue
+        # steps until the plant is switched off (for the shutdown profile): position counted from the end of the running block
+        to_off = None
+        for q in range(t, T):
+            if on[q] < .5:
+                to_off = q - t          # 1 = last running step ... the i-th element of the shutdown profile is i steps before turning off
+                break
+        in_shutdown = Ls and to_off is not None and to_off <= Ls
+        if run < L:
+            if not in_shutdown and not (prof_lo[run] - tol <= x[t] <= prof_up[run] + tol):
+                F('C06.rampprofile.start_profile_followed', f'step {t} is step {run} after the start: output {x[t]} not in [{prof_lo[run]}, {prof_up[run]}] (x {x.round(4).tolist()}, on {on.tolist()}, running before: {tar})')
+                break
+        elif not in_shutdown:
+            if not (mn - tol <= x[t] <= mx + tol):
+                F('C06.on.virtual_output_within_capacity', f'step {t}: output {x[t]} not in [{mn}, {mx}] (x {x.round(4).tolist()})')
+                break
+            if abs(x[t] - prev) > ramp + tol:
+                F('C06.ramp.change_within_ramp', f'step {t}' + (' (first step, relative to the last dispatch)' if t == 0 else '') +
+                  f': output {prev} -> {x[t]} exceeds ramp {ramp}; the start profile of {L} steps is completed (running for {run} steps) (x {x.round(4).tolist()})')
+                break
+        run, prev = run + 1, x[t]
+    return out
+
+
 # ------------------------------------------------------------------------------------------------ C02 independent textbook formulation
 class _RefLP:
     """tiny LP builder for scipy.optimize.linprog (independent of EAO's matrices)"""
@@ -1720,6 +1891,11 @@ def check_periodic_kinds(case):
             a = eao.assets.Contract(name='x', nodes=B, price='q', extra_costs=.5, min_cap=-1., max_cap=2., **kw)
         elif kind == 'transport':
             a = eao.assets.Transport(name='x', nodes=[A, B], min_cap=0., max_cap=2., efficiency=.9, costs_const=.1, **kw)
+        elif kind == 'take':
+            # a contract whose take over a window (aligned with the coarse steps) is limited: the limit binds at these prices
+            lo_, hi_ = case.get('take_window', (6, 18))
+            take = {'start': [start + pd.Timedelta(lo_, 'h')], 'end': [start + pd.Timedelta(hi_, 'h')], 'values': [case.get('take', 8.)]}
+            a = eao.assets.Contract(name='x', nodes=B, price='p', min_cap=0., max_cap=2., max_take=take, min_take={'start': take['start'], 'end': take['end'], 'values': [2.]}, **kw)
         else:
             a = eao.assets.MultiCommodityContract(name='x', nodes=[A, B], factors_commodities=[-1., .8], min_cap=0., max_cap=2., extra_costs=.2, **kw)
         others = [eao.assets.SimpleContract(name='mA', nodes=A, price='p', min_cap=-5., max_cap=5.),
@@ -1907,13 +2083,21 @@ def check_optimize_random(case):
     u = np.asarray([lo + float(rng.choice([0, 0, 1, 2, 4])) for lo in l])
     if case.get('all_fixed'):
         u = l.copy()
+    if case.get('inf'):
+        # one-sided variables (a buy-only contract without capacity limit): infinite upper or lower bounds, the cost pushing to the finite side
+        for j in range(n):
+            side = rng.choice([None, 'u', 'u', 'l'])
+            if side == 'u':
+                u[j], c[j] = np.inf, abs(c[j]) + (0. if rng.random() < .5 else 1.)
+            elif side == 'l':
+                l[j], c[j] = -np.inf, -abs(c[j]) - (0. if rng.random() < .5 else 1.)
     A = np.asarray([[float(rng.choice([0, 0, 1, -1, 2])) for _ in range(n)] for _ in range(m)]).reshape(m, n)
     for r in range(m):
         if not np.any(A[r]):
             A[r, rng.randrange(n)] = 1.      # (rows without any entry are left to the external solver's presolve, A1: not generated)
     b = np.asarray([float(rng.randint(-3, 4)) for _ in range(m)])
     ct = ''.join(rng.choice('ULSN') for _ in range(m))
-    isb = [case.get('mip', False) and rng.random() < .5 for _ in range(n)]
+    isb = [case.get('mip', False) and rng.random() < .5 and np.isfinite(l[j]) and np.isfinite(u[j]) for j in range(n)]
     rows = []
     for j in range(n):
         for _ in range(rng.choice([1, 1, 2])):          # duplicated mapping rows
@@ -1943,6 +2127,8 @@ def check_optimize_random(case):
     feasible_bounds = bool(np.all(lo <= hi))
     ref = milp(c, constraints=cons or None, bounds=Bounds(lo, hi), integrality=integ) if feasible_bounds else None
     ref_ok = ref is not None and ref.status == 0
+    if ref is not None and ref.status == 3:
+        return out          # unbounded problem (possible with one-sided variables): neither side has an optimum to compare
     F = lambda name, detail: out.append(fail(name, 'optimization:OptimProblem.optimize', case, dict(case), detail + f' | c={c.tolist()} l={l.tolist()} u={u.tolist()} A={A.tolist()} b={b.tolist()} cType={ct} bool={isb}'))
     if isinstance(res, str):
         if res != 'inaccurate' and ref_ok:
